@@ -218,7 +218,24 @@ func (o *FilterOptimizer) optimizeBetweenExpr(e *BinaryOpExpr) *ScanType {
 	return &ScanType{FULL, nil}
 }
 
+// mirrorCompare turns `'lit' OP key` into the equivalent `key OP' 'lit'`,
+// it returns nil if e does not have that shape.
+func mirrorCompare(e *BinaryOpExpr) *BinaryOpExpr {
+	if _, ok := e.Left.(*StringExpr); !ok {
+		return nil
+	}
+	if _, ok := e.Right.(*FieldExpr); !ok {
+		return nil
+	}
+	mirrored := map[Operator]Operator{Gt: Lt, Gte: Lte, Lt: Gt, Lte: Gte}
+	return &BinaryOpExpr{Pos: e.Pos, Op: mirrored[e.Op], Left: e.Right, Right: e.Left}
+}
+
 func (o *FilterOptimizer) optimizeGtGteExpr(e *BinaryOpExpr) *ScanType {
+	if m := mirrorCompare(e); m != nil {
+		// 'lit' > key bounds the key from above
+		return o.optimizeLtLteExpr(m)
+	}
 	var (
 		field KVKeyword = ValueKW
 		key   []byte    = nil
@@ -253,6 +270,10 @@ func (o *FilterOptimizer) optimizeGtGteExpr(e *BinaryOpExpr) *ScanType {
 }
 
 func (o *FilterOptimizer) optimizeLtLteExpr(e *BinaryOpExpr) *ScanType {
+	if m := mirrorCompare(e); m != nil {
+		// 'lit' < key bounds the key from below
+		return o.optimizeGtGteExpr(m)
+	}
 	var (
 		field KVKeyword = ValueKW
 		key   []byte    = nil
@@ -287,6 +308,11 @@ func (o *FilterOptimizer) optimizeLtLteExpr(e *BinaryOpExpr) *ScanType {
 }
 
 func (o *FilterOptimizer) optimizePrefixMatchExpr(e *BinaryOpExpr) *ScanType {
+	if _, ok := e.Left.(*StringExpr); ok {
+		// 'lit' ^= key asks whether the key is a prefix of the literal,
+		// which is not a prefix scan
+		return &ScanType{FULL, nil}
+	}
 	var (
 		field KVKeyword = ValueKW
 		key   []byte    = nil
